@@ -32,6 +32,15 @@ SCALE = {"s": 1, "ms": 10 ** 3, "us": 10 ** 6, "ns": 10 ** 9}
 # ("fixed:<minutes>" = datetime.timezone(timedelta(minutes=...)))
 ZONES = [None, None, "UTC", "Australia/Darwin", "Etc/GMT+5", "Asia/Kolkata",
          "fixed:345", "fixed:-210", "Etc/GMT-10"]
+# zones whose UTC offset changes (daylight saving in both hemispheres, shifts of 30 min, 1 h, 2 h and
+# 24 h, changes at 00:00, 00:01, 01:00, 02:00, 02:45, 03:00 wall clock, permanent changes of the
+# standard offset, "negative" daylight saving, zoneinfo and dateutil implementations of tzinfo)
+DST_ZONES = ["Australia/Sydney", "Australia/Sydney", "Australia/Adelaide", "Australia/Lord_Howe",
+             "Australia/Hobart", "America/New_York", "America/St_Johns", "America/Sao_Paulo",
+             "America/Santiago", "America/Caracas", "Europe/London", "Europe/Dublin", "Europe/Berlin",
+             "Pacific/Auckland", "Pacific/Chatham", "Pacific/Apia", "Asia/Tehran", "Africa/Casablanca",
+             "Antarctica/Troll", "dateutil/Europe/London", "dateutil/Australia/Sydney",
+             "dateutil/America/New_York"]
 INV_TOL = 1e-8          # |.| of the validity tolerance of the kernel (not asserted)
 
 
